@@ -140,6 +140,7 @@ def run(chk, repo, tier):
     run_more(chk, repo, mc)
     run_v6(chk, repo)
     run_v7_v9(chk, repo)
+    run_v10_v12(chk, repo)
 
 
 def run_more(chk, repo, mc):
@@ -353,3 +354,99 @@ def run_v7_v9(chk, repo):
                           'the matrix rows follow the order of the collection, the names the order the caller listed them in: '
                           'variances and covariances land on the wrong variables', line=c.lineno,
                           witness="join(['ETA4', 'ETA1']): the variance of ETA1 becomes that of ETA4")
+
+
+def run_v10_v12(chk, repo):
+    """V10: selecting random variables by a container accepts names and symbols alike in both places that look at the container;
+    V11: the repaired parameter values are written back whole; V12: the descaled covariance is L @ L.T of the LOWER factor (the
+    scale is derived from the lower Cholesky factor)"""
+    from sa import reach
+    rv = repo.cls('pharmpy.model.random_variables.RandomVariables')
+    V10 = chk.rule('V10', 'RandomVariables.__getitem__(container): every filter over the container tests the same spellings '
+                          '(name, Expr.symbol(name))', floor=2)
+    # (the method has @overload stubs in front of the implementation: take the definition with a body)
+    cands = [m_ for k_, m_ in dict.items(rv.methods) if k_.split('#')[0] == '__getitem__']
+    gi = max(cands, key=lambda m_: len(list(ast.walk(m_.node)))) if cands else None
+    if gi is None:
+        raise AnalysisError('RandomVariables.__getitem__ not found')
+    par = [p for p in gi.params if p != 'self'][0]
+    views = []
+    for c in ast.walk(gi.node):
+        if isinstance(c, (ast.ListComp, ast.GeneratorExp, ast.SetComp)) and c.generators[0].ifs:
+            forms = set()
+            for t in ast.walk(c.generators[0].ifs[0]):
+                if isinstance(t, ast.Compare) and len(t.ops) == 1 and isinstance(t.ops[0], (ast.In, ast.NotIn)) \
+                        and unparse(t.comparators[0]) == par:
+                    lv = c.generators[0].target
+                    txt = unparse(t.left)
+                    for x in ast.walk(lv):
+                        if isinstance(x, ast.Name):
+                            txt = txt.replace(x.id, '_')
+                    forms.add('symbol' if 'symbol' in txt or 'Expr' in txt else 'name')
+            if forms:
+                views.append((c, forms))
+    if len(views) < 2:
+        raise AnalysisError(f'V10: filters over the container argument of __getitem__ not recognised ({len(views)})')
+    allf = set().union(*(f_ for _c, f_ in views))
+    for c, forms in views:
+        ok = forms == allf
+        chk.instance(V10, f'__getitem__: `{unparse(c)[:60]}` tests {sorted(forms)} of {sorted(allf)}: {ok}')
+        if not ok:
+            chk.violation(V10, rv.module.rel, gi.qualname, unparse(c)[:90],
+                          f'this filter accepts {sorted(forms)} only while its sibling accepts {sorted(allf)}: for the other '
+                          f'spelling every variable is first split off its block', line=c.lineno,
+                          witness='rvs[[Expr.symbol("ETA_1"), Expr.symbol("ETA_2")]] of a joint block: the covariance is lost, '
+                                  'rvs[names] != rvs[symbols]')
+    V11 = chk.rule('V11', '_canonicalize_parameter_estimates: what nearest_valid_parameters returns is written back as it is '
+                          '(no filtering of "unchanged" entries)', floor=1)
+    mc = repo.cls('pharmpy.model.model.Model')
+    cp = mc.methods.get('_canonicalize_parameter_estimates')
+    if cp is None:
+        raise AnalysisError('Model._canonicalize_parameter_estimates not found')
+    cfg = CFG(cp.node)
+    n11 = 0
+    for nd in cfg.nodes.values():
+        if nd.kind != 'stmt' or nd.ast is None:
+            continue
+        for c in [x for x in ast.walk(nd.ast) if isinstance(x, ast.Call) and isinstance(x.func, ast.Attribute)
+                  and x.func.attr == 'set_initial_estimates' and x.args]:
+            n11 += 1
+            e = reach.expand_expr(cfg, nd.id, c.args[0])
+            direct = isinstance(e, ast.Call) and isinstance(e.func, ast.Attribute) and e.func.attr == 'nearest_valid_parameters'
+            chk.instance(V11, f'_canonicalize_parameter_estimates: set_initial_estimates({unparse(e)[:60]}) takes the repaired values '
+                              f'whole: {direct}')
+            if not direct:
+                chk.violation(V11, mc.module.rel, cp.qualname, unparse(e)[:90],
+                              'only part of the repaired values is written back: a block that was indefinite by rounding noise '
+                              'stays indefinite', line=nd.line,
+                              witness='a rank deficient block [[0.3, 0.3], [0.3, 0.3]]: Model.create keeps it, validate_parameters '
+                                      'of the result is False')
+    if n11 == 0:
+        raise AnalysisError('V11: set_initial_estimates not found in _canonicalize_parameter_estimates')
+    V12 = chk.rule('V12', '_descale_matrix: the matrix is rebuilt as L @ L.T from the lower triangle L', floor=1)
+    em = repo.module('pharmpy.modeling.estimation')
+    f = em.functions.get('_descale_matrix')
+    if f is None:
+        raise AnalysisError('_descale_matrix not found')
+    fcfg = CFG(f.node)
+    rets = [n_ for n_ in fcfg.nodes.values() if n_.kind == 'return' and n_.ast.value is not None]
+    n12 = 0
+    for r in rets:
+        e = r.ast.value
+        if not (isinstance(e, ast.BinOp) and isinstance(e.op, ast.MatMult)):
+            e = reach.expand_expr(fcfg, r.id, e, depth=1)
+        if not (isinstance(e, ast.BinOp) and isinstance(e.op, ast.MatMult)):
+            continue
+        n12 += 1
+        lt, rt = unparse(e.left), unparse(e.right)
+        lower = 'tril' in unparse(reach.expand_expr(fcfg, r.id, e.left)) or 'tril' in unparse(reach.expand_expr(fcfg, r.id, e.right))
+        ok = lower and rt in (f'{lt}.T', f'{lt}.transpose()', f'({lt}).T')
+        chk.instance(V12, f'_descale_matrix: returns `{unparse(e)[:50]}` = (lower factor) @ (its transpose): {ok}')
+        if not ok:
+            chk.violation(V12, em.rel, f.name, unparse(e)[:80],
+                          'calculate_ucp_scale derives the scale from the lower Cholesky factor (A = L L^T); L^T L is another '
+                          'matrix unless L is diagonal', line=r.line,
+                          witness='a model with a 2x2 OMEGA block: calculate_parameters_from_ucp(model, scale, 0.1..) differs '
+                                  'from the initial estimates')
+    if n12 == 0:
+        raise AnalysisError('V12: matrix product returned by _descale_matrix not found')
